@@ -344,58 +344,73 @@ Fixpoint read_edges (file : bytes) (fuel : nat) (off pos cnt : Z) : res (list N)
       end
   end.
 
-Fixpoint hashes_of (file : bytes) (fi : findex) (idxs : list N) : res (list bytes) :=
+(* GetHashByIndex inside one file (position already made local) *)
+Definition hash_local (file : bytes) (fi : findex) (i : N) : res bytes :=
+  if ncommits fi <=? i then Er EMalformed
+  else match slice file (off_of (f_off fi) 1 + Z.of_N i * 20)%Z 20 with
+       | None => Er EIO
+       | Some h => Ok h
+       end.
+
+(* getHashesFromIndexes: positions below [min] (minimumNumberOfHashes) belong to the parent
+   layers of a split graph and are answered by [below] (parent.GetHashByIndex) *)
+Fixpoint hashes_of (below : N -> res bytes) (min : N) (file : bytes) (fi : findex) (idxs : list N) : res (list bytes) :=
   match idxs with
   | [] => Ok []
   | i :: r =>
-    if ncommits fi <=? i then Er EMalformed
-    else match slice file (off_of (f_off fi) 1 + Z.of_N i * 20)%Z 20 with
-         | None => Er EIO
-         | Some h => match hashes_of file fi r with Ok l => Ok (h :: l) | Er e => Er e end
-         end
+    match (if i <? min then below i else hash_local file fi (i - min)) with
+    | Er e => Er e
+    | Ok h => match hashes_of below min file fi r with Ok l => Ok (h :: l) | Er e => Er e end
+    end
   end.
 
-Definition get_commit_data (file : bytes) (fi : findex) (idx : N) : res cdata :=
+(* the parent positions encoded by the two parent words (octopus: walk of the EDGE chunk) *)
+Definition parent_indexes (file : bytes) (fi : findex) (p1 p2 : N) : res (list N) :=
+  if N.land p2 parentOctopusUsed =? parentOctopusUsed then
+    let cnt := Z.quot (off_of (f_size fi) 5) 4 in
+    let pos := Z.of_N (N.land p2 parentOctopusMask) in
+    if (cnt <=? pos)%Z then Er EMalformed
+    else match read_edges file (S (List.length file)) (off_of (f_off fi) 5 + 4 * pos)%Z pos cnt with
+         | Ok l => Ok (N.land p1 parentOctopusMask :: l)
+         | Er e => Er e
+         end
+  else if negb (p2 =? parentNone) then Ok [N.land p1 parentOctopusMask; N.land p2 parentOctopusMask]
+  else if negb (p1 =? parentNone) then Ok [N.land p1 parentOctopusMask]
+  else Ok [].
+
+(* corrected commit date: commit time + the GDA2 offset, or + the GDO2 slot it points to *)
+Definition gen2_of (file : bytes) (fi : findex) (idx tm : N) : res N :=
+  if f_gen2 fi then
+    match rd file (off_of (f_off fi) 3 + Z.of_N idx * 4)%Z 4 with
+    | Er e => Er e
+    | Ok d =>
+      if 0 <? N.land d 2147483648 then
+        let pos := Z.of_N (N.land d 2147483647) in
+        let cnt := Z.quot (off_of (f_size fi) 4) 8 in
+        if (cnt <=? pos)%Z then Er EMalformed
+        else match rd file (off_of (f_off fi) 4 + pos * 8)%Z 8 with
+             | Er e => Er e
+             | Ok o => Ok ((tm + o) mod two64)
+             end
+      else Ok (tm + d)
+    end
+  else Ok 0.
+
+(* GetCommitDataByIndex of one file; [idx] is the position inside this file (idx - min);
+   f_gen2 fi is fileIndex.hasGenerationV2 (own GDA2 chunk && the parent's flag) *)
+Definition get_commit_data_in (below : N -> res bytes) (min : N) (file : bytes) (fi : findex) (idx : N) : res cdata :=
   if ncommits fi <=? idx then Er ENotFound else
   let off := (off_of (f_off fi) 2 + Z.of_N idx * 36)%Z in
   match slice file off 20, rd file (off + 20)%Z 4, rd file (off + 24)%Z 4, rd file (off + 28)%Z 8 with
   | Some tree, Ok p1, Ok p2, Ok gt =>
-    let pidx :=
-      if N.land p2 parentOctopusUsed =? parentOctopusUsed then
-        let cnt := Z.quot (off_of (f_size fi) 5) 4 in
-        let pos := Z.of_N (N.land p2 parentOctopusMask) in
-        if (cnt <=? pos)%Z then Er EMalformed
-        else match read_edges file (S (List.length file)) (off_of (f_off fi) 5 + 4 * pos)%Z pos cnt with
-             | Ok l => Ok (N.land p1 parentOctopusMask :: l)
-             | Er e => Er e
-             end
-      else if negb (p2 =? parentNone) then Ok [N.land p1 parentOctopusMask; N.land p2 parentOctopusMask]
-      else if negb (p1 =? parentNone) then Ok [N.land p1 parentOctopusMask]
-      else Ok [] in
-    match pidx with
+    match parent_indexes file fi p1 p2 with
     | Er e => Er e
     | Ok pidx =>
-      match hashes_of file fi pidx with
+      match hashes_of below min file fi pidx with
       | Er e => Er e
       | Ok ph =>
         let tm := N.land gt 17179869183 in
-        let g2 :=
-          if f_gen2 fi then
-            match rd file (off_of (f_off fi) 3 + Z.of_N idx * 4)%Z 4 with
-            | Er e => Er e
-            | Ok d =>
-              if 0 <? N.land d 2147483648 then
-                let pos := Z.of_N (N.land d 2147483647) in
-                let cnt := Z.quot (off_of (f_size fi) 4) 8 in
-                if (cnt <=? pos)%Z then Er EMalformed
-                else match rd file (off_of (f_off fi) 4 + pos * 8)%Z 8 with
-                     | Er e => Er e
-                     | Ok o => Ok ((tm + o) mod two64)
-                     end
-              else Ok (tm + d)
-            end
-          else Ok 0 in
-        match g2 with
+        match gen2_of file fi idx tm with
         | Er e => Er e
         | Ok g2 => Ok (mkCD tree pidx ph (N.shiftr gt 34) g2 tm)
         end
@@ -403,6 +418,10 @@ Definition get_commit_data (file : bytes) (fi : findex) (idx : N) : res cdata :=
     end
   | _, _, _, _ => Er EIO
   end.
+
+(* a single file (no parent): minimumNumberOfHashes = 0, [below] is never consulted *)
+Definition get_commit_data (file : bytes) (fi : findex) (idx : N) : res cdata :=
+  get_commit_data_in (fun _ => Er EMalformed) 0 file fi idx.
 
 (* GetIndexByHash: binary search inside the fanout bucket *)
 Fixpoint bsearch (file : bytes) (fi : findex) (h : bytes) (fuel : nat) (low high : N) : res N :=
@@ -448,24 +467,123 @@ Definition out_cdata (r : res cdata) : out :=
 Fixpoint upto (n : nat) : list N :=
   match n with O => [] | S k => upto k ++ [N.of_nat k] end.
 
-(* dump of a file through the reader: every commit index, and the hash lookup
-   of every listed hash; at most [cap] commits are dumped *)
-Definition dump (file : bytes) (cap : nat) : out :=
+(* ------------------------------------------------------------ split graphs
+   OpenFileIndexWithParent: a chain of files, NEWEST FIRST; l_min = minimumNumberOfHashes
+   (= parent.MaximumNumberOfHashes(), uint32), f_gen2 (l_fi L) = own GDA2 chunk && parent's flag *)
+Record layer := mkLayer { l_file : bytes; l_fi : findex; l_min : N }.
+
+Definition max_hashes (L : layer) : N := (l_min L + ncommits (l_fi L)) mod two32.
+
+(* GetHashByIndex *)
+Fixpoint ch_hash (ch : list layer) (idx : N) : res bytes :=
+  match ch with
+  | [] => Er EMalformed                      (* idx < minimumNumberOfHashes and parent == nil *)
+  | L :: below =>
+    if idx <? l_min L then ch_hash below idx
+    else hash_local (l_file L) (l_fi L) (idx - l_min L)
+  end.
+
+(* GetCommitDataByIndex *)
+Fixpoint ch_commit_data (ch : list layer) (idx : N) : res cdata :=
+  match ch with
+  | [] => Er ENotFound
+  | L :: below =>
+    if idx <? l_min L then ch_commit_data below idx
+    else get_commit_data_in (ch_hash below) (l_min L) (l_file L) (l_fi L) (idx - l_min L)
+  end.
+
+(* GetIndexByHash: own file first, then the parent *)
+Fixpoint ch_index_by_hash (ch : list layer) (h : bytes) : res N :=
+  match ch with
+  | [] => Er ENotFound
+  | L :: below =>
+    match index_by_hash (l_file L) (l_fi L) h with
+    | Ok mid => Ok ((mid + l_min L) mod two32)
+    | Er ENotFound => ch_index_by_hash below h
+    | Er e => Er e
+    end
+  end.
+
+Definition set_gen2 (fi : findex) (b : bool) : findex :=
+  mkFI (f_fanout fi) (f_off fi) (f_size fi) b (f_size_total fi).
+
+Definition open_with_parent (file : bytes) (parent : list layer) : res (list layer) :=
   match open_file file with
-  | Er e => OErr (err_name e)
+  | Er e => Er e
   | Ok fi =>
-    let n := ncommits fi in
+    match parent with
+    | [] => Ok [mkLayer file fi 0]
+    | P :: _ => Ok (mkLayer file (set_gen2 fi (f_gen2 fi && f_gen2 (l_fi P))) (max_hashes P) :: parent)
+    end
+  end.
+
+(* dump of the newest layer of a chain through the reader: every commit position of that layer and the
+   hash lookup of every listed hash; at most [cap] commits are dumped *)
+Definition ch_dump (ch : list layer) (cap : nat) : out :=
+  match ch with
+  | [] => OErr "nochain"
+  | L :: _ =>
+    let base := l_min L in
+    let n := (max_hashes L + two32 - base) mod two32 in
     let m := N.to_nat (N.min n (N.of_nat cap)) in
-    let hs := map (fun i => slice file (off_of (f_off fi) 1 + Z.of_N i * 20)%Z 20) (upto m) in
-    OOk [OBool (f_gen2 fi); ON n;
-         OList (map (fun i => out_cdata (get_commit_data file fi i)) (upto m));
-         OList (map (fun h => match h with
-                              | None => OErr "io"
-                              | Some h => match index_by_hash file fi h with
-                                          | Ok i => OList [OBytes h; ON i]
-                                          | Er e => OList [OBytes h; OErr (err_name e)]
-                                          end
-                              end) hs)]
+    OOk [OBool (f_gen2 (l_fi L)); ON n;
+         OList (map (fun i => out_cdata (ch_commit_data ch (base + i))) (upto m));
+         OList (map (fun i => match ch_hash ch (base + i) with
+                              | Er e => OErr (err_name e)
+                              | Ok h => match ch_index_by_hash ch h with
+                                        | Ok j => OList [OBytes h; ON j]
+                                        | Er e => OList [OBytes h; OErr (err_name e)]
+                                        end
+                              end) (upto m))]
+  end.
+
+Definition dump (file : bytes) (cap : nat) : out :=
+  match open_with_parent file [] with
+  | Er e => OErr (err_name e)
+  | Ok ch => ch_dump ch cap
+  end.
+
+(* the files of a chain oldest first: one dump per layer, or the first error *)
+Fixpoint chain_dumps (files : list bytes) (parent : list layer) (cap : nat) (acc : list out) : res (list out) :=
+  match files with
+  | [] => Ok acc
+  | f :: r =>
+    match open_with_parent f parent with
+    | Er e => Er e
+    | Ok ch => chain_dumps r ch cap (acc ++ [ch_dump ch cap])
+    end
+  end.
+
+(* ------------------------------------------------------------ decoding a whole file *)
+Definition decode_entry (file : bytes) (fi : findex) (i : N) : res centry :=
+  match hash_local file fi i with
+  | Er e => Er e
+  | Ok h =>
+    match get_commit_data file fi i with
+    | Er e => Er e
+    | Ok d => Ok (mkEntry h (d_tree d) (d_phash d) (d_gen d) (d_gen2 d) (Z.of_N (d_when d)))
+    end
+  end.
+
+Fixpoint decode_all (file : bytes) (fi : findex) (is : list N) : res (list centry) :=
+  match is with
+  | [] => Ok []
+  | i :: r =>
+    match decode_entry file fi i with
+    | Er e => Er e
+    | Ok x => match decode_all file fi r with Ok l => Ok (x :: l) | Er e => Er e end
+    end
+  end.
+
+(* (HasGenerationV2, the commits in position order) *)
+Definition decode (file : bytes) : res (bool * list centry) :=
+  match open_file file with
+  | Er e => Er e
+  | Ok fi =>
+    match decode_all file fi (map N.of_nat (seq 0 (N.to_nat (ncommits fi)))) with
+    | Er e => Er e
+    | Ok l => Ok (f_gen2 fi, l)
+    end
   end.
 
 (* run-length form of byte strings over 4-byte words (the 1 KiB fanout is mostly repeats):
@@ -526,3 +644,9 @@ Definition c51_encode (tree : string) (hs : list string) (es : list (nat * list 
   OList [compact (out_rle b); compact (dump (b ++ repeat 0 20) 64)].
 
 Definition c51_decode (file : list (N * string)) : out := compact (dump (unrle file) 64).
+
+Definition c51_chain (files : list (list (N * string))) : out :=
+  match chain_dumps (map unrle files) [] 64 [] with
+  | Er e => OErr (err_name e)
+  | Ok l => OList (map compact l)
+  end.
